@@ -76,7 +76,7 @@ def run(ctx):
             rmw += sum(1 for b, op, fld, c in sync.atomic_sites(fnc) if op in ("fetch_add", "fetch_sub", "swap"))
             sync.commit_before_check(ctx, fnc, fx=fx)
             nrel += sync.push_relink(ctx, fnc, fx=fx)
-            sync.lock_split(ctx, fnc)
+            sync.lock_split(ctx, fnc, fx=fx)
     ctx.instance("R-COMMIT.rmw_sites", rmw)
     ctx.floor("R-COMMIT.rmw_sites", 40)
     ctx.instance("R-ABA.relink.pushes", nrel)
